@@ -209,6 +209,14 @@ func runEntry(entry string, data []byte, profile string, del sim.Delivery, opts 
 				for range ch {
 				}
 			}
+			// whatever the calls above returned, the store can still be closed
+			closed := make(chan struct{})
+			go func() { ro.Close(); close(closed) }()
+			select {
+			case <-closed:
+			case <-time.After(3 * time.Second):
+				res.endless = "Close did not return within 3s after the lookups and the key listing had returned (a lock is still held)"
+			}
 		case "openreadable":
 			rc, err := storage.OpenReadable(src.(io.ReaderAt), o...)
 			note(err)
